@@ -1,6 +1,6 @@
 '''C08 - every written file is structurally valid TRIPOLI-4 input.'''
 from .. import model as M
-from .. import gen_cells, gen_univ, gen_lat, gen_hostile
+from .. import gen_cells, gen_univ, gen_lat, gen_hostile, gen_mix
 from . import c04, c10
 from ..judge import convert_deck
 from ..t4file import RULES
@@ -46,6 +46,7 @@ SOURCES = {
                                                'trcl-star', 'trcl-pair')
                    for rot in ('generic', 'flip-x', 'flip-y', 'flip-z',
                                'quarter', 'permutation')]),
+    'mix': (gen_mix.build, gen_mix.FAMILIES),
     'mat': (None, ['mass-atomrho', 'mass-massrho', 'atom-atomrho',
                    'keywords', 'repeated-nuclide', 'same-value-spellings',
                    'two-densities']),
@@ -61,9 +62,9 @@ class _Sub:
         self.seed = case.seed
 
 _PER = {'quick': {'c01': 3, 'c05': 4, 'c06': 3, 'c07': 2, 'hostile': 12,
-                  'c04': 4, 'mat': 6},
+                  'c04': 4, 'mat': 6, 'mix': 2},
         'thorough': {'c01': 450, 'c05': 600, 'c06': 360, 'c07': 300,
-                     'hostile': 1500, 'c04': 450, 'mat': 450}}
+                     'hostile': 1500, 'c04': 450, 'mat': 450, 'mix': 100}}
 FLAGS = ['--skip-deduplication', '--skip-compositions', '--skip-geomcomp',
          '--skip-boundary-conditions', '--always-inline-filling',
          '--always-inline-filled']
